@@ -50,6 +50,8 @@ type HostSpec struct {
 	// usual challenge: "" = the usual challenge; "nohdr" = no Www-Authenticate at all; "negotiate" = an
 	// unsupported scheme; "malformed" = an unparsable header.
 	Retry401 string `json:"retry401,omitempty"`
+	// ScopeParam: the spelling of the challenge's scope parameter name ("" = scope; Scope, SCOPE)
+	ScopeParam string `json:"scope_param,omitempty"`
 	// IssuedAtLower: issued_at is written with lower-case "t" and "z", which RFC 3339 allows
 	IssuedAtLower bool `json:"issued_at_lower,omitempty"`
 	// ClockAheadMs: the token server's clock runs this far ahead of the client's (issued_at lies in the
@@ -308,7 +310,11 @@ func (w *World) challengeHeaders(h *HostSpec, required map[Triple]bool) (hdrs []
 	bearer := func(scope string) string {
 		s := fmt.Sprintf(`Bearer realm=%q,service=%q`, realm, h.Service)
 		if scope != "" {
-			s += fmt.Sprintf(`,scope=%q`, scope)
+			name := "scope"
+			if h.ScopeParam != "" {
+				name = h.ScopeParam // auth-param names are case-insensitive (RFC 7235)
+			}
+			s += fmt.Sprintf(`,%s=%q`, name, scope)
 		}
 		return s
 	}
